@@ -868,6 +868,7 @@ def state_the_checker_agrees_with(ctx: Ctx):
         raise AnalysisError("no clock-update obligation produced (CVRPTWEnv expected)")
     for o in ctx.obligations[n1:]:
         o.rule = "C06.s"
+    C01.op_lengths(ctx, "C06.v")
     from .C04 import batch_rows
     batch_rows(ctx, "C06.t", envs=tuple(T.CHECK_ENVS), meths=("_reset",))
 
